@@ -298,6 +298,7 @@ func checkC02(p *Prog, r *Report) {
 	checkInsertOneEntry(p, r, rIns)
 	checkTransportWriter(p, r, rTW)
 	checkStreamLifetime(p, r, r.Rule("stream-lifetime", "nothing puts a clock on the stream operator input is written to (C03's rule, for the input direction)"))
+	checkBidirJoined(p, r, r.Rule("bidirectional-joined", "the function admitting both directions for one /io request returns only when both have ended: a direction started with go is waited for, so nothing writes to the handler's ResponseWriter after the handler has returned"))
 	checkFullDuplex(p, r, r.Rule("duplex-enabled", "every handler which attaches both directions on one request enables full-duplex HTTP on that request before it does (else the first flush waits for the client's request body and operator input is not delivered promptly)"))
 }
 
@@ -914,4 +915,69 @@ func blockReachableAvoiding(fn *ssa.Function, blk *ssa.BasicBlock, avoid map[Edg
 		}
 	}
 	return false
+}
+
+
+// checkBidirJoined: see the rule's text.  net/http lets go of the
+// ResponseWriter when the handler returns; a line written by an input proxy
+// which is still running then is consumed, logged and lost.
+func checkBidirJoined(p *Prog, r *Report, ru *Rule) {
+	a := findConnect(p)
+	if 0 != len(a.Errs) {
+		return
+	}
+	admitters := map[*ssa.Function]bool{}
+	for _, ci := range a.Callers {
+		admitters[topFn(ci.Parent())] = true
+	}
+	calls := func(f *ssa.Function) bool {
+		hit := false
+		for _, g := range withAnons(f) {
+			eachInstr(g, func(i ssa.Instruction) {
+				if c := callCommon(i); nil != c && nil != c.StaticCallee() && admitters[c.StaticCallee()] {
+					hit = true
+				}
+			})
+		}
+		return hit
+	}
+	for _, fn := range p.Funcs() {
+		if nil != fn.Parent() || admitters[fn] || !calls(fn) || nil == fn.Pkg || !strings.Contains(fn.Pkg.Pkg.Path()+"/", "/"+iobPkg+"/") {
+			continue
+		}
+		n := 0
+		eachInstr(fn, func(i ssa.Instruction) {
+			g, ok := i.(*ssa.Go)
+			if !ok {
+				return
+			}
+			starts := false
+			if sc := g.Common().StaticCallee(); nil != sc && (admitters[sc] || calls(sc)) {
+				starts = true
+			}
+			if cf, _ := closureOf(g.Common().Value); nil != cf && calls(cf) {
+				starts = true
+			}
+			if !starts {
+				return
+			}
+			n++
+			c := fmt.Sprintf("%s:go#%d", fnName(fn), n)
+			isWait := func(j ssa.Instruction) bool {
+				if cc := callCommon(j); nil != cc && strings.HasSuffix(calleeName(cc), ").Wait") {
+					return true
+				}
+				if u, isU := j.(*ssa.UnOp); isU && token.ARROW == u.Op {
+					return true
+				}
+				_, isSel := j.(*ssa.Select)
+				return isSel
+			}
+			if miss := mustPass(locOf(i), isReturn, isWait); nil != miss {
+				ru.Bad(c, posOf(i), "a direction of the /io request is started with go and the function can return without waiting for it: the handler returns while that direction still uses its ResponseWriter or body")
+			} else {
+				ru.OK(c, posOf(i), "waited for before the function returns")
+			}
+		})
+	}
 }
